@@ -92,6 +92,20 @@ class FakePath:
         self.world.events.append(("bounds", self))
         return self.world.bounds
 
+    @property
+    def controlPointBounds(self):
+        self.world.events.append(("controlPointBounds", self))
+        return self.world.bounds
+
+    @property
+    def verbs(self):
+        return [v for v, _ in self._segments()]
+
+    @property
+    def contours(self):
+        self.world.events.append(("contours", self))
+        return [self]
+
     def __len__(self):
         if self.term is not None:
             return 0 if self.world.computed_paths_are_empty else 3
